@@ -1,10 +1,14 @@
 (* Interp/RunStep.v — step-call cases (family c11steps):
      (steps ENV (plugin STEP...) MODE (calls CALL...))
-     STEP ::= (stepd "id" HASINIT INPUT (("out" SCHEMA)...) (("sig" SCHEMA)...))
+     STEP ::= (stepd|stepd-any "id" HASINIT INPUT (("out" SCHEMA)...) (("sig" SCHEMA)...))
+              stepd-any: the Go step is instantiated with StepData = any (an interface type) instead of a
+              pointer type; the model does not distinguish the two (D65 repaired: a nil interface reaches
+              the signal handler as the zero value, exactly like a nil pointer)
      MODE ::= seq | conc          (conc: the calls are released together from goroutines; the
                                    projection below does not depend on the arrival order)
      CALL ::= (call "run" "step" RAW "outid" OUTDATA)     the handler returns (outid, OUTDATA)
             | (signal "run" "step" "sig" RAW)
+            | (dcall "run" "step" NATIVE "outid" OUTDATA)   CallableStep.Call called directly with a native value
    observation:
      (r (RES...) (inits ("step" N)...))
      RES ::= (c (h ENTRY...) RESULT ISO)
@@ -13,7 +17,9 @@
                            call list); J: index of this step-data value among the distinct values
                            the handlers of (step, run) saw — 0 everywhere iff one value per run
      RESULT ::= (ok "outid" VALUE) | ok | (err badarg|input|output|plain) | panic | diverged
-     ISO ::= (iso nostep) | (iso nosig) | (iso U) | (iso U V S)   the data operations in isolation *)
+     ISO ::= (iso nostep) | (iso nosig) | (iso U) | (iso U V S)   the data operations in isolation
+           | (iso V OV)  for dcall: Validate of the input, Validate of the handler's output (or `undeclared`);
+             the RESULT of a dcall carries the handler's data as it is (not serialized) *)
 From Verif Require Import Base.Prelude Base.Str Base.Float Base.GoVal
   Schema.Regex Schema.Units Schema.Syntax Schema.Ops Schema.FloatUnits ATP.Msg Call.Step
   Generated.Tables Interp.Sexp Interp.RunUnits Interp.Codec Interp.RunSchema.
@@ -27,16 +33,19 @@ Definition named_schemas_of (l : list sexp) : option (list (string * schema)) :=
 
 Definition stepd_of (x : sexp) : option (stepid * step_d) :=
   match x with
-  | Ls [At "stepd"; St id; hi; inp; Ls outs; Ls sigs] =>
-      h <-? b_of_atom hi ;; i <-? schema_of DEPTH inp ;;
-      os <-? named_schemas_of outs ;; ss <-? named_schemas_of sigs ;;
-      Some (id, mkStepD i os ss h)
+  | Ls [At kind; St id; hi; inp; Ls outs; Ls sigs] =>
+      if String.eqb kind "stepd" || String.eqb kind "stepd-any" then
+        h <-? b_of_atom hi ;; i <-? schema_of DEPTH inp ;;
+        os <-? named_schemas_of outs ;; ss <-? named_schemas_of sigs ;;
+        Some (id, mkStepD i os ss h)
+      else None
   | _ => None
   end.
 
 Inductive ccall :=
 | CCall (run sid : string) (raw : gval) (oid : string) (odata : gval)
-| CSignal (run sid sig : string) (raw : gval).
+| CSignal (run sid sig : string) (raw : gval)
+| CDirect (run sid : string) (input : gval) (oid : string) (odata : gval).
 
 Definition ccall_of (x : sexp) : option ccall :=
   match x with
@@ -44,14 +53,17 @@ Definition ccall_of (x : sexp) : option ccall :=
       r <-? gval_of DEPTH raw ;; o <-? gval_of DEPTH od ;; Some (CCall run sid r oid o)
   | Ls [At "signal"; St run; St sid; St sg; raw] =>
       r <-? gval_of DEPTH raw ;; Some (CSignal run sid sg r)
+  | Ls [At "dcall"; St run; St sid; inp; St oid; od] =>
+      r <-? gval_of DEPTH inp ;; o <-? gval_of DEPTH od ;; Some (CDirect run sid r oid o)
   | _ => None
   end.
-Definition ccall_run (c : ccall) : string := match c with CCall r _ _ _ _ | CSignal r _ _ _ => r end.
+Definition ccall_run (c : ccall) : string := match c with CCall r _ _ _ _ | CSignal r _ _ _ | CDirect r _ _ _ _ => r end.
 
 Definition op_of_ccall (c : ccall) : sop :=
   match c with
   | CCall run sid raw oid od => OpCall run sid raw (fun _ _ => (oid, od))
   | CSignal run sid sg raw => OpSignal run sid sg raw
+  | CDirect run sid inp oid od => OpDirect run sid inp (fun _ _ => (oid, od))
   end.
 
 (* ---- projection ---- *)
@@ -132,6 +144,16 @@ Definition iso_of (e : env) (p : plugin) (c : ccall) : sexp :=
           match alookup sg (sd_signals st) with
           | None => Ls [At "iso"; At "nosig"]
           | Some ss => Ls [At "iso"; s_iso s_val (m_unser FUEL e ss raw)]
+          end
+      end
+  | CDirect _ sid inp oid od =>
+      match alookup sid p with
+      | None => Ls [At "iso"; At "nostep"]
+      | Some st =>
+          let v := s_iso s_unit (m_validate FUEL e (sd_input st) inp) in
+          match alookup oid (sd_outputs st) with
+          | None => Ls [At "iso"; v; At "undeclared"]
+          | Some os => Ls [At "iso"; v; s_iso s_unit (m_validate FUEL e os od)]
           end
       end
   end.
